@@ -267,7 +267,7 @@ def run_shard(desc, acc):
                          S.digest(text), expected=exp)
         # the library's own JSON format written by another producer (n-ary operand lists of any length)
         clj = [c for c in RT.FORMATS["json"].classes() if c[0] not in ("ctc:chain7-20", "ctc:chain17-70", "ctc:wide11-15")]
-        clj.append(("ctc:chain16-70", inject.inj_ctc_chain(("AND", "OR"), (16, 70))))
+        clj.append(("ctc:chain16-70", inject.inj_ctc_chain(("AND", "OR"), (15, 70), distinct=True)))
         for j in range(desc["n_emit"]):
             r = rand.rng(seed, "c02json", i, j)
             spec, tags = inject.apply(inject.base(r, 4, 12), r.sample(clj, r.randint(1, 4)) + ([clj[-1]] if j % 3 == 0 else []), r)
